@@ -29,6 +29,8 @@ func init() {
 			{ID: "C05.9", Desc: "fields named by a qualified no-cache are removed only from a response that is handed out unvalidated, never in front of validation or write-back", Run: ruleC05_9, MinSites: 1},
 			{ID: "C05.8", Desc: "a valid origin Date is forwarded and stored unchanged; only an invalid one is repaired", Run: func(c *Ctx) { ruleDateRepair(c, "C05.8") }, MinSites: 1},
 			{ID: "C05.7", Desc: "no field of an origin or stored response object is rewritten (only header entries, C05.5)", Run: ruleC05_7, MinSites: 1},
+			{ID: "C05.10", Desc: "a hit has exactly the stored body: an entry whose body ends early is not served", Run: func(c *Ctx) { ruleStoredBodyComplete(c, "C05.10") }, MinSites: 1},
+			{ID: "C05.11", Desc: "trailer fields that appear while the body is read reach the stored entry", Run: func(c *Ctx) { ruleTrailersAfterRead(c, "C05.11") }, MinSites: 1},
 		},
 	})
 }
@@ -254,7 +256,7 @@ func (c *Ctx) hopStripLoop(fn *ssa.Function) (*ssa.Range, ssa.Value) {
 				return
 			}
 			// the only condition between the iteration step and the delete is the loop's own "more elements" test
-			for _, dc := range dominatingConds(i2.Block()) {
+			for _, dc := range controlConds(i2.Block()) {
 				if dc.block == nx.Block() || !nx.Block().Dominates(dc.block) {
 					continue
 				}
@@ -338,6 +340,27 @@ func ruleCodecPair(c *Ctx, rule string) {
 	}
 	if n == 0 {
 		c.Undecided(rule, "dump-with-body", "the entry writer serialises through DumpResponse", "no DumpResponse call reachable from the entry writer")
+	}
+	// DumpResponse writes trailer fields only for a chunked message: for any other framing (an HTTP/2 response has no
+	// Transfer-Encoding) they reach the stored form only if the writer looks at the trailer map itself.
+	if n > 0 {
+		consulted := ""
+		for _, fn := range c.reachableFrom(c.A.F("writeEntry")) {
+			instrsOf(fn, func(in ssa.Instruction) {
+				if fa, ok := in.(*ssa.FieldAddr); ok && isHTTPResponsePtr(fa.X.Type()) && fieldName(fa.X.Type(), fa.Field) == "Trailer" {
+					consulted = c.P.ShortName(fn) + "@" + c.P.InstrPos(in)
+				}
+				if f, ok := in.(*ssa.Field); ok && fieldName(f.X.Type(), f.Field) == "Trailer" {
+					consulted = c.P.ShortName(fn) + "@" + c.P.InstrPos(in)
+				}
+			})
+		}
+		dt := "the entry writer consults the response's trailer map (the library dump writes trailers for chunked framing only)"
+		if consulted != "" {
+			c.Pass(rule, "dump-trailers-consulted", dt, consulted)
+		} else {
+			c.Fail(rule, "dump-trailers-consulted", dt, "no read of Response.Trailer below the entry writer: the trailer fields of a response that is not chunked (HTTP/2) are missing from the stored entry and from every later hit")
+		}
 	}
 	ep := c.A.F("entryParser")
 	// ReadResponse reads from the same reader that consumed the metadata line
@@ -495,7 +518,7 @@ func ruleC05_5(c *Ctx) {
 		instrsOf(fn, func(in ssa.Instruction) {
 			if call := callOf(in); call != nil && callIsMethod(call, "net/http", "Header", "Set") {
 				_, args := recvAndArgs(call)
-				if k, _ := constStr(args[0]); k == "Date" && len(dominatingConds(in.Block())) > 0 {
+				if k, _ := constStr(args[0]); k == "Date" && len(controlConds(in.Block())) > 0 {
 					guarded = true
 				}
 			}
@@ -605,6 +628,32 @@ func ruleC05_7(c *Ctx) {
 			// a response object built here from scratch (composite literal) is not an origin/stored response
 			if _, isAlloc := c.An.canon(fa.X).(*ssa.Alloc); isAlloc {
 				return
+			}
+			// a missing header map replaced by an empty one (`if resp.Header == nil { resp.Header = make(http.Header) }`)
+			// changes nothing of the message
+			if _, isMake := st.Val.(*ssa.MakeMap); isMake && name == "Header" {
+				nilTested := false
+				for _, dc := range dominatingConds(st.Block()) {
+					for _, lf := range condLeaves(dc.cond, dc.onTrue) {
+						bo, ok := lf.v.(*ssa.BinOp)
+						if !ok || !(bo.Op == token.EQL && lf.val || bo.Op == token.NEQ && !lf.val) {
+							continue
+						}
+						for _, side := range [][2]ssa.Value{{bo.X, bo.Y}, {bo.Y, bo.X}} {
+							if !isNilConst(side[1]) {
+								continue
+							}
+							if u, ok := side[0].(*ssa.UnOp); ok {
+								if fa2, ok := u.X.(*ssa.FieldAddr); ok && fa2.Field == fa.Field && c.An.sameCanon(fa2.X, fa.X) {
+									nilTested = true
+								}
+							}
+						}
+					}
+				}
+				if nilTested {
+					return
+				}
 			}
 			bad++
 			where := c.P.ShortName(fn) + "@" + c.P.InstrPos(in)
